@@ -167,7 +167,7 @@ def main():
                          indent=1, default=str))
         return 1 if (r.get("status") == "differ" or r.get("det")) else 0
     run = Run("C07", a.tier, "translation_validation")
-    n = 160 if a.tier == "quick" else 3000
+    n = 640 if a.tier == "quick" else 6000
     TIMEOUT = 20000 if a.tier == "quick" else 120000
     kinds = ["plain", "plain", "general", "expo", "repeat", "spin", "denom", "plain"]
     base = seed() * 1000003
